@@ -68,6 +68,8 @@ func Scenarios(tier string) []Scenario {
 		{Name: "nil;reset", Methods: 2, Resets: true, Progs: [][]POp{prog(call("A", "nil"), reset("A"), call("B"), resetall())}},
 		{Name: "nil||calls", Methods: 1, Progs: [][]POp{prog(call("A", "nil")), prog(calls("A"), call("A", "nil"))}},
 		{Name: "independent", Methods: 2, Progs: [][]POp{prog(call("A"), calls("B")), prog(call("B"), calls("A"))}},
+		{Name: "call|reset|resetall", Methods: 1, Resets: true, Progs: [][]POp{prog(call("A")), prog(reset("A")), prog(resetall())}},
+		{Name: "call|call|calls", Methods: 1, Progs: [][]POp{prog(call("A")), prog(call("A")), prog(calls("A"))}},
 	}
 	if tier == "thorough" {
 		s = append(s,
@@ -108,6 +110,7 @@ type concResult struct {
 	Fatal      []string       `json:"fatal"`
 	ForeignG   int            `json:"foreignG"`
 	Stale      []string       `json:"stale"`
+	WrongArgs  []string       `json:"wrongArgs"`
 	Infra      string         `json:"infra"`
 }
 
@@ -192,10 +195,26 @@ func runConc(prop, tier string, sc *core.Scratch, ev *core.Evidence, rep *core.R
 	}
 	mod, err := Generate(sc, moq, AllVariants())
 	if err != nil {
-		return 2, core.Infra("generating the run-time corpus failed: %v", err)
+		return corpusBroken(prop, rep, "moq fails on the run-time corpus", err.Error())
 	}
+	return runConcOn(prop, tier, sc, ev, rep, mod)
+}
+
+// corpusBroken: the run-time corpus is plain, valid Go that moq handles; when
+// moq rejects it or its output no longer compiles, no operation on those mocks
+// can behave as the property demands. That is a real-code witness.
+func corpusBroken(prop string, rep *core.Reporter, kind, detail string) (int, error) {
+	rep.Violation(prop, map[string]any{"kind": kind, "detail": core.Tail(detail, 40),
+		"how": "the real moq was run on the run-time corpus (internal/rt/corpus.go) under all 16 flag/destination variants and the result compiled"})
+	return 1, nil
+}
+
+func runConcOn(prop, tier string, sc *core.Scratch, ev *core.Evidence, rep *core.Reporter, mod *Module) (int, error) {
 	bin, dir, yields, err := mod.BuildSched(sc)
 	if err != nil {
+		if _, isInfra := err.(*core.InfraError); isInfra && strings.Contains(err.Error(), "does not compile") {
+			return corpusBroken(prop, rep, "the generated mocks of the run-time corpus do not compile", err.Error())
+		}
 		return 2, err
 	}
 	ev.Set("yield_points_inserted", yields)
@@ -214,6 +233,15 @@ func runConc(prop, tier string, sc *core.Scratch, ev *core.Evidence, rep *core.R
 		}()
 	}
 	scenarios := Scenarios(tier)
+	if prop == "C03" {
+		var few []Scenario
+		for _, s := range scenarios {
+			if s.Name == "call||call" || s.Name == "cb-recurse||calls" || s.Name == "cb-other||call" || s.Name == "call|call|calls" {
+				few = append(few, s)
+			}
+		}
+		scenarios = few
+	}
 	var jobs []concJob
 	maxRuns := 30000
 	if tier == "thorough" {
@@ -302,6 +330,12 @@ func runConc(prop, tier string, sc *core.Scratch, ev *core.Evidence, rep *core.R
 				if len(r.Stale) > 0 {
 					witness("a slice returned by an accessor changed afterwards", r.Stale)
 				}
+				if len(r.WrongArgs) > 0 {
+					witness("under concurrency a configured function received another call's arguments", r.WrongArgs)
+				}
+			}
+			if prop == "C03" && len(r.WrongArgs) > 0 {
+				witness("a configured function received other arguments than its caller passed", r.WrongArgs)
 			}
 			if prop == "C06" {
 				if r.Deadlocks > 0 {
@@ -331,8 +365,10 @@ func runConc(prop, tier string, sc *core.Scratch, ev *core.Evidence, rep *core.R
 	ev.Set("real_states_visited", totalStates)
 	// the template's algorithm as a TLA+ model: properties by TLC, and state-set
 	// conformance between the model and real mocks
-	if err := implConformance(sc, ev, rep, mod, bin, dir, tier); err != nil {
-		return 2, err
+	if prop != "C03" {
+		if err := implConformance(sc, ev, rep, mod, bin, dir, tier); err != nil {
+			return 2, err
+		}
 	}
 	ev.Set("spec_drift", rep.Drift)
 	// linearizability of every distinct history (C05)
